@@ -15,7 +15,7 @@
    LiveProofs.v. *)
 From LibcoapV Require Import Base.Tactics Exchange.Exchange Exchange.Accept Exchange.Spec
   Exchange.AcceptProofs Exchange.System Exchange.SystemProofs Exchange.GuardProofs
-  Exchange.Refute.
+  Exchange.Refute Exchange.LiveProofs.
 Local Open Scope Z_scope.
 
 (* The acceptor is sound: whatever produced the trace (the model, the real library under the
@@ -31,14 +31,14 @@ Print Assumptions C07_acceptor_sound.
    request with that mid) ... *)
 Theorem C07_handler_token : forall cf cmid0 smid0 acts,
   ex_P_token (ex_sys_trace cf (ex_sys_init cmid0 smid0) acts).
-Proof. intros. apply (ex_system_local cf cmid0 smid0 acts). Qed.
+Proof. exact ex_system_token. Qed.
 Print Assumptions C07_handler_token.
 
 (* ... after a piggybacked, separate or Non-confirmable response for a token was handled (or
    its NACK given) no request with that token is transmitted again ... *)
 Theorem C07_response_stops_rtx : forall cf cmid0 smid0 acts,
   ex_P_stops (ex_sys_trace cf (ex_sys_init cmid0 smid0) acts).
-Proof. intros. apply (ex_system_local cf cmid0 smid0 acts). Qed.
+Proof. exact ex_system_stops. Qed.
 Print Assumptions C07_response_stops_rtx.
 
 (* ... every Confirmable response received is answered in the same step by exactly one ACK, or
@@ -47,15 +47,13 @@ Print Assumptions C07_response_stops_rtx.
 Theorem C07_con_acked : forall cf cmid0 smid0 acts,
   ex_P_conack (ex_sys_trace cf (ex_sys_init cmid0 smid0) acts) /\
   ex_P_dup (ex_sys_trace cf (ex_sys_init cmid0 smid0) acts).
-Proof.
-  intros. split; apply (ex_system_local cf cmid0 smid0 acts).
-Qed.
+Proof. exact ex_system_conack. Qed.
 Print Assumptions C07_con_acked.
 
 (* ... and a Non-confirmable response is delivered exactly once per datagram received. *)
 Theorem C07_non_once : forall cf cmid0 smid0 acts,
   ex_P_non (ex_sys_trace cf (ex_sys_init cmid0 smid0) acts).
-Proof. intros. apply (ex_system_local cf cmid0 smid0 acts). Qed.
+Proof. exact ex_system_non. Qed.
 Print Assumptions C07_non_once.
 
 (* "Never both, never twice".  Full-strength statement (all configurations):
@@ -68,7 +66,7 @@ Print Assumptions C07_non_once.
    timer fires when nothing of the exchange is left.  Each hypothesis is necessary. *)
 Theorem C07_at_most_once_under_hyps : forall maxr cmid0 smid0 acts,
   ex_P_once (ex_sys_trace (ex_cfg_guarded maxr) (ex_sys_init cmid0 smid0) acts).
-Proof. intros. apply (ex_system_safe maxr cmid0 smid0 acts). Qed.
+Proof. exact ex_system_once. Qed.
 Print Assumptions C07_at_most_once_under_hyps.
 
 (* the whole property under the hypotheses *)
@@ -105,6 +103,52 @@ Theorem C07_at_most_once_refuted_late_response :
     ex_concl_count k (ex_sys_trace (Build_ex_cfg 4 true true false) (ex_sys_init 100 7000) acts) = 2%nat.
 Proof. exact ex_once_refuted_patient. Qed.
 Print Assumptions C07_at_most_once_refuted_late_response.
+
+(* "Never neither once the network is quiet".  Under the same three hypotheses and message ids
+   that do not wrap within the run, for every schedule: when the system is at rest (nothing in
+   flight, no work at the server, empty send queue) every request the application sent was
+   answered (response handler or NACK for its token), unless its response was irrecoverably lost -
+   ex_lost_run collects the tokens whose Non-confirmable response the network dropped and those
+   whose Confirmable response the server gave up on after max_retransmit + 1 transmissions.
+   This is the property's fairness hypothesis ("not all MAX_RETRANSMIT+1 transmissions of one
+   Confirmable lost"; a NON is sent once) made explicit; C07_concludes_needs_fairness shows it
+   cannot be dropped. *)
+Theorem C07_concludes : forall maxr cmid0 smid0 acts,
+  0 <= cmid0 -> 0 <= smid0 ->
+  cmid0 + Z.of_nat (length acts) < 65536 -> smid0 + Z.of_nat (length acts) < 65536 ->
+  let cf := ex_cfg_guarded maxr in
+  let y0 := ex_sys_init cmid0 smid0 in
+  let r := ex_sys_run cf y0 acts in
+  ex_at_rest (fst r) = true ->
+  forall mid k, ex_sent_req mid k (snd r) ->
+    ex_answered k (snd r) \/ In k (ex_lost_run cf y0 acts).
+Proof. exact ex_system_live. Qed.
+Print Assumptions C07_concludes.
+
+(* exactly once: with nothing irrecoverably lost, at rest every token was answered, and (by
+   C07_at_most_once_under_hyps) concluded at most once *)
+Theorem C07_exactly_once : forall maxr cmid0 smid0 acts,
+  0 <= cmid0 -> 0 <= smid0 ->
+  cmid0 + Z.of_nat (length acts) < 65536 -> smid0 + Z.of_nat (length acts) < 65536 ->
+  let cf := ex_cfg_guarded maxr in
+  let y0 := ex_sys_init cmid0 smid0 in
+  let r := ex_sys_run cf y0 acts in
+  ex_at_rest (fst r) = true -> ex_lost_run cf y0 acts = [] ->
+  forall mid k, ex_sent_req mid k (snd r) ->
+    ex_answered k (snd r) /\ (ex_concl_count k (snd r) <= 1)%nat.
+Proof. exact ex_system_exactly_once. Qed.
+Print Assumptions C07_exactly_once.
+
+(* the fairness hypothesis is needed: the NON response is lost, the empty ACK arrives, the
+   system comes to rest and the token was never answered *)
+Theorem C07_concludes_needs_fairness :
+  exists acts,
+    let r := ex_sys_run (ex_cfg_guarded 4) (ex_sys_init 100 7000) acts in
+    ex_at_rest (fst r) = true /\ ex_sent_req 101 1 (snd r) /\
+    ex_lost_run (ex_cfg_guarded 4) (ex_sys_init 100 7000) acts = [1] /\
+    forall o out, In o (snd r) -> In out (snd o) -> ex_out_ends 1 out = false.
+Proof. exact ex_live_needs_fairness. Qed.
+Print Assumptions C07_concludes_needs_fairness.
 
 (* non-vacuity: under the hypotheses exchanges do take place - a concrete schedule with a lost
    empty ACK, a retransmission, a duplicated separate response and a FAIL verdict yields one
